@@ -18,6 +18,46 @@ sys.path.insert(0, REPO)
 os.environ.setdefault('PYTHONHASHSEED', '0')
 
 
+def show_replay(path):
+    """print a replay file (what a VIOLATION line points to) in readable form: the actions of the
+    behaviour that was replayed with the expected and the observed state, or the observed
+    sequence / scenario record that falsified the formula"""
+    import json
+    with open(path) as fh:
+        d = json.load(fh)
+    print('property : %s' % d.get('property'))
+    print('what     : %s' % d.get('what'))
+    print('signature: %s' % d.get('signature'))
+    r = d.get('replay') or {}
+    if isinstance(r, dict):
+        for k in ('label', 'scenario', 'module', 'constants', 'at', 'note'):
+            if r.get(k) not in (None, ''):
+                print('%-9s: %s' % (k, json.dumps(r[k]) if not isinstance(r[k], str) else r[k]))
+        if r.get('acts'):
+            print('actions:')
+            for i, a in enumerate(r['acts']):
+                print('  %2d %s' % (i, json.dumps(a, sort_keys=True)))
+        for k in ('expected', 'observed'):
+            if r.get(k) is not None:
+                print('%s state: %s' % (k, json.dumps(r[k], sort_keys=True)))
+        seq = r.get('obs')
+        if seq:
+            print('observed sequence:')
+            for i, o in enumerate(seq):
+                print('  %2d %s -> %s' % (i, json.dumps(o.get('act'), sort_keys=True),
+                                          json.dumps(o.get('state'), sort_keys=True)[:400]))
+        if r.get('trace'):
+            print('TLC counterexample:')
+            print(r['trace'])
+        rest = {k: v for k, v in r.items() if k not in ('label', 'scenario', 'module', 'constants', 'at', 'note',
+                                                       'acts', 'expected', 'observed', 'obs', 'trace')}
+        if rest:
+            print('record   : %s' % json.dumps(rest, sort_keys=True)[:2000])
+    else:
+        print('record   : %s' % json.dumps(r)[:2000])
+    return 0
+
+
 def _janitor():
     """scratch directories of runs that were killed (TLC work directories can be gigabytes):
     anything of ours under /var/tmp that has not been touched for four hours"""
@@ -55,7 +95,7 @@ def main():
     ctx = Ctx(a.pid, a.tier, seed)
     try:
         if a.replay:
-            mod.replay(ctx, a.replay)
+            return show_replay(a.replay)
         else:
             mod.main(ctx)
     except TLCError as exc:
